@@ -8,6 +8,7 @@ import RedisVerif.Model.Codec
   `ser`/`de` are the identity on payload bytes here: the op lines carry the bytes bincode
   produced, and a decoded payload is reported as the index of the equal payload of the
   pristine base image (`?` if there is none).
+    V <format 1|2> <strict 0|1>  → which WAL format / segment iterator the code under test has (default 2 1)
     S <n> {<ts> <hex>}*          → segment image written by the model (`none` for the empty batch)
     IS <hex>                     → set base segment image; read it
     st <len> | sx <pos> <val>    → read the truncated / byte-substituted base segment
@@ -28,6 +29,8 @@ def errName : Codec.Err → String
   | .noLength => "noLength" | .noFooter => "noFooter" | .size => "size"
 
 structure St where
+  fmt : Format := .v2
+  strict : Bool := true
   seg : Bytes := []
   segPayloads : List Bytes := []
   chk : Bytes := []
@@ -38,7 +41,7 @@ def idxOf (ps : List Bytes) (p : Bytes) : String :=
   | some i => toString i
   | none => "?"
 
-def readSeg (data : Bytes) : Res (List Bytes) := readSegment crc (fun b => some b) data
+def readSeg (strict : Bool) (data : Bytes) : Res (List Bytes) := readSegment strict crc (fun b => some b) data
 
 def showSeg (base : List Bytes) : Res (List Bytes) → String
   | .error e => s!"err {errName e}"
@@ -52,6 +55,8 @@ def showChk (base : Option Bytes) : Res Bytes → String
 
 def step (s : St) (line : String) : St × String :=
   match tokens line with
+  | ["V", v, k] => ({ s with fmt := if v == "1" then .v1 else .v2, strict := k != "0" },
+      s!"format {if v == "1" then 1 else 2} strict {if k != "0" then 1 else 0}")
   | "S" :: rest =>
     let p : P (List (Nat × Bytes)) := do
       let n ← nat
@@ -65,17 +70,17 @@ def step (s : St) (line : String) : St × String :=
   | ["IS", h] =>
     (match (bytesTok.run [h]) with
     | some (img, _) =>
-      let r := readSeg img
+      let r := readSeg s.strict img
       let base := match r with | .ok ps => ps | .error _ => []
       ({ s with seg := img, segPayloads := base }, showSeg base r)
     | none => (s, "bad-op"))
   | ["st", l] =>
     (match l.toNat? with
-    | some n => (s, showSeg s.segPayloads (readSeg (s.seg.take n)))
+    | some n => (s, showSeg s.segPayloads (readSeg s.strict (s.seg.take n)))
     | none => (s, "bad-op"))
   | ["sx", p, v] =>
     (match p.toNat?, v.toNat? with
-    | some p, some v => (s, showSeg s.segPayloads (readSeg (s.seg.set p v)))
+    | some p, some v => (s, showSeg s.segPayloads (readSeg s.strict (s.seg.set p v)))
     | _, _ => (s, "bad-op"))
   | ["C", k, t, l, h] =>
     (match k.toNat?, t.toNat?, l.toNat?, bytesTok.run [h] with
@@ -102,12 +107,12 @@ def step (s : St) (line : String) : St × String :=
     | none => (s, "bad-op"))
   | ["W", t, h] =>
     (match t.toNat?, bytesTok.run [h] with
-    | some t, some (b, _) => (s, hexOfBytes (Entry.mk' crc b t).encode)
+    | some t, some (b, _) => (s, hexOfBytes (Entry.mk' s.fmt crc b t).encode)
     | _, _ => (s, "bad-op"))
   | ["wd", h] =>
     (match bytesTok.run [h] with
     | some (b, _) =>
-      (s, match decode crc b with
+      (s, match decode s.fmt crc b with
           | none => "none"
           | some (e, n) => s!"{C10.showEntry e} {n}")
     | none => (s, "bad-op"))
